@@ -543,3 +543,52 @@ def m11(ctx):
                           "FileBasedCollectionMetadata.%s can return normally without having stored the value it was given (e.g. through an "
                           "exception handler that covers the assignment): PROPPATCH answers 200 OK and PROPFIND still shows the old value" % nm))
     return obs
+
+
+@rule("C15", "M12", floor=2, kind="N",
+      desc="a property write answered with success is the value later reads return: the metadata file is stored through "
+           "_import_one, which returns normally only after the commit or when the new content equals the published "
+           "(index / tree) entry (same obligations as C01/W2) - readers serve .xandikos from the index, so 'the working "
+           "copy already has it' acknowledges the retry of a failed PROPPATCH without storing anything")
+def m12(ctx):
+    from .c01 import w2
+    return w2(ctx)
+
+
+@rule("C15", "M13", floor=1, kind="S",
+      desc="the reader of .xandikos cuts lines where the writer ended them: ConfigParser.write() terminates lines with "
+           "'\\n' only, so the stored text reaches the parser whole (read_string / a StringIO) or split on '\\n' - "
+           "str.splitlines() also breaks at U+2028, U+2029, U+0085, VT, FF ..., which a display name or comment may "
+           "contain: the value reads back cut or the file no longer parses")
+def m13(ctx):
+    from .common import string_leaves
+    fi = ctx.own_method("xandikos.store.git.GitStore", "config")
+    cfg = ctx.cfg(fi)
+    du = DefUse(cfg)
+    obs = []
+    for n in cfg.stmt_nodes():
+        for c in n.calls():
+            if isinstance(c.func, ast.Attribute) and c.func.attr in ("read_string", "read_file", "read_dict") and c.args:
+                # every expression the argument is computed from
+                seen_exprs = []
+                todo = [(n, c.args[0], 0)]
+                while todo:
+                    at, e, dp = todo.pop()
+                    if dp > 6:
+                        continue
+                    seen_exprs.append(e)
+                    for x in ast.walk(e):
+                        if isinstance(x, ast.Name) and isinstance(x.ctx, ast.Load):
+                            for o in origins(du, at, x):
+                                if o.kind == "expr" and o.leaf is not None and o.leaf is not x and o.node is not None:
+                                    todo.append((o.node, o.leaf, dp + 1))
+                bad = [x for e in seen_exprs for x in ast.walk(e) if isinstance(x, ast.Call) and isinstance(x.func, ast.Attribute) and x.func.attr == "splitlines"
+                       and not (x.args or x.keywords) or (isinstance(x, ast.Call) and isinstance(x.func, ast.Attribute) and x.func.attr == "split" and not x.args)]
+                obs.append(ctx.ob(not bad, fi.qualname, "%s:%d" % (fi.module.rel, n.lineno), "stored text reaches the parser with the writer's line ends",
+                                  "%s(<decoded file>)" % c.func.attr,
+                                  "the text of .xandikos is cut with `%s` before it is parsed: that also breaks lines at U+2028 / U+2029 / U+0085 / "
+                                  "form feed, which ConfigParser.write() stored inside a value - a display name or comment containing one is "
+                                  "acknowledged and then reads back changed, or every later read fails with ParsingError" % (src(bad[0])[:50] if bad else "")))
+    if not obs:
+        raise AnalysisError("GitStore.config: no ConfigParser.read_string/read_file call found")
+    return obs
